@@ -103,6 +103,7 @@ static int hfd [NHANDLE] ;
 static long hembed [NHANDLE] ;
 static const char *tmpdir = "/verif/build/tmp" ;
 
+static unsigned char *sidecar [NSTORE] ; static long sidecar_len [NSTORE] ;	/* pending resource fork side-car ("._name") for the next path open of the store; -1 = none */
 static char store_suffix [NSTORE][12] ;		/* file name extension for the path / fd routes (SD2 is recognised by name) */
 static void store_path (int sid, char *out, size_t n) { snprintf (out, n, "%s/sfd_%d_S%d%s", tmpdir, (int) getpid (), sid, store_suffix [sid]) ; }
 static void store_to_file (int sid, long pre, long post)
@@ -238,7 +239,7 @@ static void store_digests (int sid, sf_count_t dataoffset)
 static void *refbuf [NHANDLE][4] ; static long long reflen [NHANDLE][4] ;
 static int res_harness_owned (const volatile void *p)
 {	if (p == (void *) linebuf) return 1 ;
-	for (int s = 0 ; s < NSTORE ; s++) if (p == (void *) stores [s].data || p == (void *) stores [s].snap) return 1 ;
+	for (int s = 0 ; s < NSTORE ; s++) if (p == (void *) stores [s].data || p == (void *) stores [s].snap || p == (void *) sidecar [s]) return 1 ;
 	for (int h = 0 ; h < NHANDLE ; h++) for (int k = 0 ; k < 4 ; k++) if (p == refbuf [h][k]) return 1 ;
 	return 0 ;
 }
@@ -446,7 +447,17 @@ static void do_open (void)
 	else
 	{	char path [512] ; store_path (sid, path, sizeof (path)) ;
 		store_to_file (sid, route == 'e' ? pre : 0, route == 'e' ? post : 0) ;
-		if (route == 'p') handles [h] = sf_open (path, m, &info) ;
+		if (route == 'p')
+		{	char sc [600] = "" ;
+			if (sidecar [sid])
+			{	/* AppleDouble style resource fork next to the file: <dir>/._<name> */
+				const char *slash = strrchr (path, '/') ;
+				snprintf (sc, sizeof (sc), "%.*s/._%s", (int) (slash - path), path, slash + 1) ;
+				FILE *sf = fopen (sc, "wb") ; if (sf) { fwrite (sidecar [sid], 1, sidecar_len [sid], sf) ; fclose (sf) ; }
+				} ;
+			handles [h] = sf_open (path, m, &info) ;
+			if (sc [0]) { unlink (sc) ; free (sidecar [sid]) ; sidecar [sid] = NULL ; }
+			}
 		else if (route == 'q')
 		{	/* non-seekable pipe: a child feeds the file's bytes into the write end */
 			int fds [2] ; if (pipe (fds) != 0) { perror ("pipe") ; exit (3) ; }
@@ -730,6 +741,8 @@ int main (int argc, char **argv)
 	if (! in) { perror ("script") ; return 2 ; }
 	ssize_t len ;
 	signal (SIGCHLD, SIG_IGN) ; signal (SIGPIPE, SIG_IGN) ;
+	/* descriptors 0..2 must exist: a library that closes a descriptor it does not own (say 0) has to be visible in the descriptor count */
+	for (int fd = 0 ; fd < 3 ; fd++) if (fcntl (fd, F_GETFD) == -1) { int nfd = open ("/dev/null", O_RDWR) ; if (nfd >= 0 && nfd != fd) { dup2 (nfd, fd) ; close (nfd) ; } }
 	unsigned budget = getenv ("SFD_BUDGET") ? (unsigned) atoi (getenv ("SFD_BUDGET")) : 0 ;
 	if (getenv ("SFDRIVE_TMP")) tmpdir = getenv ("SFDRIVE_TMP") ;
 	mkdir (tmpdir, 0755) ;
@@ -848,6 +861,12 @@ int main (int argc, char **argv)
 		else if (! strcmp (op, "fault"))
 		{	VIO_MEM *m = &stores [tokll (1)] ; m->calls = 0 ; m->fault_at = tokll (2) ; m->fault_kind = tokll (3) ; m->fault_once = tokll (4) ; m->fault_done = 0 ; vio_unsnap (m) ;
 			printf ("%d fault set=1\n", lineno) ;
+			}
+		else if (! strcmp (op, "sidecar"))
+		{	/* sidecar <sid> <hex|-> : the next path-route open of this store finds a resource fork file of these bytes beside it */
+			int sid = tokll (1) ; const char *hx = ntok > 2 ? toks [2] : "-" ; size_t n = hx [0] == '-' ? 0 : strlen (hx) / 2 ;
+			free (sidecar [sid]) ; sidecar [sid] = malloc (n + 1) ; sidecar_len [sid] = (long) (hx [0] == '-' ? 0 : unhex (hx, sidecar [sid], n)) ;
+			printf ("%d sidecar len=%ld\n", lineno, sidecar_len [sid]) ;
 			}
 		else if (! strcmp (op, "fdclose")) { int h = tokll (1) ; int r = hfd [h] >= 0 ? close (hfd [h]) : -2 ; printf ("%d fdclose ret=%d\n", lineno, r) ; }
 		else if (! strcmp (op, "calls")) printf ("%d calls n=%ld\n", lineno, stores [tokll (1)].calls) ;
